@@ -22,6 +22,7 @@ type HeapDecl struct {
 }
 
 type Engine struct {
+	remapLoops    map[*FuncContract]bool // contracts whose loop clauses are attached in program order (remap.go)
 	u             *Universe
 	prog          *ssa.Program
 	pkgs          []*packages.Package
@@ -50,7 +51,7 @@ func newEngine(repoDir, libDir string) *Engine {
 	return &Engine{
 		u: newUniverse(), spkgs: map[string]*ssa.Package{}, typesPkgs: map[string]*types.Package{}, pkgByName: map[string]*types.Package{},
 		importNames: map[string]map[string]string{}, contracts: map[string]*FuncContract{}, pures: map[string]*PureFunc{}, puresByGoName: map[string]*PureFunc{},
-		ghosts: map[string]*GhostVar{}, heapDecls: map[string]*HeapDecl{}, repoModule: "github.com/furiko-io/furiko", repoDir: repoDir, libDir: libDir,
+		remapLoops: map[*FuncContract]bool{}, ghosts: map[string]*GhostVar{}, heapDecls: map[string]*HeapDecl{}, repoModule: "github.com/furiko-io/furiko", repoDir: repoDir, libDir: libDir,
 	}
 }
 
@@ -288,6 +289,8 @@ type FuncResult struct {
 	Inputs       []inputVar
 	Used         []*FuncContract // callee contracts (non-extern) relied upon
 	UnknownIdent string          // the contract names something the function no longer has (see rebind.go)
+	FC           *FuncContract
+	Remapped     bool
 }
 
 func newRun(e *Engine, fn *ssa.Function, fc *FuncContract) *Run {
@@ -301,7 +304,13 @@ func (e *Engine) verifyFunc(fc *FuncContract) (res *FuncResult) {
 }
 
 func (e *Engine) verifyFuncAlias(fc *FuncContract, alias map[string]string) (res *FuncResult) {
-	res = &FuncResult{Key: fc.Key, Pkg: fc.PkgPath}
+	return e.verifyFuncOpts(fc, alias, e.remapLoops[fc])
+}
+
+// verifyFuncOpts: alias re-binds names of locals (rebind.go); remap attaches the contract's loop clauses to the loops of
+// the function and of its inlined helpers in program order instead of by ordinal within the function (remap.go).
+func (e *Engine) verifyFuncOpts(fc *FuncContract, alias map[string]string, remap bool) (res *FuncResult) {
+	res = &FuncResult{Key: fc.Key, Pkg: fc.PkgPath, FC: fc, Remapped: remap}
 	fn := e.findFunc(fc.PkgPath, fc.Key)
 	if fn == nil {
 		res.Status = "stale"
@@ -310,6 +319,14 @@ func (e *Engine) verifyFuncAlias(fc *FuncContract, alias map[string]string) (res
 	}
 	res.Func = fn.String()
 	r := newRun(e, fn, fc)
+	if remap {
+		r.loopRemap = e.loopProgramOrder(fn, fc)
+		if r.loopRemap == nil {
+			res.Status = "outside-subset"
+			res.Error = "loop clauses cannot be matched to the loops of the function and its inlined helpers"
+			return
+		}
+	}
 	r.localAlias = map[string]string{}
 	for k, v := range alias {
 		r.localAlias[k] = v
